@@ -2059,6 +2059,12 @@ def _dense_of_rels(rels):
     return rows
 
 
+def _pivots_too_large(det, h):
+    """the documented cause of snf-reduce-refusal: after the row phase the product of the pivots is a proper multiple of h; the
+    code accumulates it with i128::saturating_mul (fix cae6a5d), so for large h the product shows as i128::MAX (> h: h < 2^125)"""
+    return det == (1 << 127) - 1 or (det != h and det % h == 0)
+
+
 def _finding_key(case, ans):
     op, a = case.op, case.args
     # ---- Wiedemann: false zero = the Krylov data (M, e_0, fixed start vector) has linear complexity < n
@@ -2115,7 +2121,7 @@ def _finding_key(case, ans):
         if ask_model(case.line) != "panic":
             return None
         d = ask_model(f"snf_reduce_diag {a[0]} {a[1]} {a[2]}").split(" ")
-        if d[0] == "rowphase" and int(d[1]) != int(d[2]) and int(d[1]) % int(d[2]) == 0:
+        if d[0] == "rowphase" and _pivots_too_large(int(d[1]), int(d[2])):
             return "snf-reduce-refusal"
         return None
     if op == "im_snf" and ans.startswith("refused-reduce"):
@@ -2123,7 +2129,7 @@ def _finding_key(case, ans):
         if ask_model(f"snf_pipeline_model {a[0]} {h}") != ans:
             return None
         d = ask_model(f"snf_pipeline_diag {a[0]} {h}").split(" ")
-        if d[0] == "rowphase" and int(d[1]) != int(d[2]) and int(d[1]) % int(d[2]) == 0:
+        if d[0] == "rowphase" and _pivots_too_large(int(d[1]), int(d[2])):
             return "snf-reduce-refusal"
         return None
     # ---- dense lattice index: the routine re-computed with the same f64 Gram-Schmidt filter ends in
